@@ -416,6 +416,10 @@ def build(case):
         x = np.array(case['x'], dtype=float); y = np.array(case['y'], dtype=float)
         grid = hcipy.CartesianGrid(hcipy.UnstructuredCoords([x, y]))
         return grid, ('cart', list(map(float, x)), list(map(float, y)))
+    if k == 'cart-separated':
+        xs = np.array(case['xs'], dtype=float); ys = np.array(case['ys'], dtype=float)
+        grid = hcipy.CartesianGrid(hcipy.SeparatedCoords((xs, ys)))
+        return grid, ('cart', [float(x) for _ in ys for x in xs], [float(y) for y in ys for _ in xs])      # x varies fastest
     if k == 'polar-points':
         r = np.array(case['r'], dtype=float)
         th = np.array([math.atan2(s, c) for c, s, d in case['ang']])
@@ -445,7 +449,7 @@ def pts_line(pts, case=None):
 def rim_mask(pts, D):
     """points exactly on the rim 2r = D, decided on exact rationals"""
     Df = Fraction(D)
-    if pts[0] == 'polar':
+    if pts[0] in ('polar', 'polarf'):
         return np.array([2 * Fraction(r) == Df for r in pts[1]], dtype=bool)
     return np.array([4 * (Fraction(x) ** 2 + Fraction(y) ** 2) == Df * Df for x, y in zip(pts[1], pts[2])], dtype=bool)
 
@@ -454,7 +458,7 @@ def cut_info(pts, D):
     """(outside[bool], ambiguous[bool]) of `2 r < D`.  Polar points: decided by the float comparison the
     code itself makes (r, D dyadic: exact).  Cartesian: decided exactly on rationals; ambiguous where
     float hypot cannot be trusted to land on the same side."""
-    if pts[0] == 'polar':
+    if pts[0] in ('polar', 'polarf'):
         r = np.array(pts[1])
         return ~((2 * r) < D), np.zeros(len(r), dtype=bool)
     out, amb = [], []
@@ -490,6 +494,8 @@ def reference(n, m, D, cut, pts, outside):
     if pts[0] == 'polar':
         r = np.array(pts[1], dtype=LD)
         th = np.array([np.arctan2(LD(s) / LD(d), LD(c) / LD(d)) for c, s, d in pts[2]], dtype=LD)
+    elif pts[0] == 'polarf':            # polar points whose angle is only known as the float the grid holds (after rotate / shift)
+        r = np.array(pts[1], dtype=LD); th = np.array(pts[2], dtype=LD)
     else:
         x = np.array(pts[1], dtype=LD); y = np.array(pts[2], dtype=LD)
         r = np.hypot(x, y); th = np.arctan2(y, x)
@@ -2017,6 +2023,651 @@ def check_high_modes(ctx, hz):
 
 # =============================================================================================
 
+# =============================================================================================
+# Part I (round 6): the grid as an OBJECT WITH A HISTORY.  One grid object is used for a Zernike evaluation (any entry point), changed by
+# a grid operation (reverse / scale / shift / rotate: in place, on a copy(), or through the out-of-place spelling reversed() / scaled() / …),
+# and used again — also the object it was copied from.  The modes must be the modes at the points the object has NOW: the points are read
+# from the object (x, y / r, theta — never through as_()), and, independently, tracked exactly through the history (Fractions; the same
+# history is sent to the model: `C13 gop …`, `C13 getpts`, `C13 mode`).
+# Part J: extreme units of length.  The property is Z(r / D): coordinates and D scaled together by 2^k (k up to +-520 in float64, +-100 for
+# float32 coordinates) — exact in binary — must give the values of the unscaled grid; every entry point, compared with the definition
+# at the unscaled points (oracle), with the model at the exactly scaled rational points (and the model with itself at both scales:
+# theorem mode_cartesian_scale_invariant / mode_cut_scale_invariant on the executable) and the entry points with each other.
+# =============================================================================================
+
+GH_KINDS = ['cart-regular', 'cart-points', 'cart-separated', 'polar-points', 'polar-separated']
+F32_TOL = 4096 * float(np.finfo(np.float32).eps)        # float32 coordinates: the same rule at the precision the inputs have
+
+
+def gh_grid(rng):
+    """(grid spec, D)"""
+    if rng.random() < 0.2:
+        j = int(rng.integers(3, 6))
+        xs = sorted(set(float(v) / 2 ** j for v in rng.integers(-12, 13, size=int(rng.integers(2, 6)))))
+        ys = sorted(set(float(v) / 2 ** j for v in rng.integers(-12, 13, size=int(rng.integers(2, 5)))))
+        # every axis needs two points: the automatic weights of a separated grid (asked for by Grid.scale) are undefined for a single one
+        xs = xs if len(xs) > 1 else [xs[0], xs[0] + 2.0 ** -j]
+        ys = ys if len(ys) > 1 else [ys[0], ys[0] + 2.0 ** -j]
+        ext = max(max(abs(v) for v in xs), max(abs(v) for v in ys), 2.0 ** -j)
+        return {'kind': 'cart-separated', 'xs': xs, 'ys': ys}, float([2 * ext, ext, 3 * ext][int(rng.integers(0, 3))])
+    g = grid_only(rng)
+    return g, g.pop('D')
+
+
+def gen_eval(rng, nmax=NMAX):
+    e = ['zernike', 'zernike', 'noll', 'ansi', 'basis', 'basis'][int(rng.integers(0, 6))]
+    cut = bool(rng.random() < 0.5)
+    if e == 'zernike':
+        n = int(rng.integers(0, nmax + 1)); m = -n + 2 * int(rng.integers(0, n + 1))
+        return {'e': e, 'n': n, 'm': m, 'cut': cut, 'cache': bool(rng.random() < 0.4), 'gen': bool(rng.random() < 0.4)}
+    ntab = (nmax + 1) * (nmax + 2) // 2
+    if e == 'noll':
+        return {'e': e, 'i': int(rng.integers(1, ntab + 1)), 'cut': cut, 'gen': bool(rng.random() < 0.4)}
+    if e == 'ansi':
+        return {'e': e, 'i': int(rng.integers(0, ntab)), 'cut': cut, 'gen': bool(rng.random() < 0.4)}
+    ansi = bool(rng.random() < 0.5); num = int(rng.integers(1, 6))
+    lo = 0 if ansi else 1
+    return {'e': e, 'num': num, 'start': int(rng.integers(lo, lo + ntab - num)), 'ansi': ansi, 'cut': cut,
+            'use_cache': bool(rng.random() < 0.6), 'gen': bool(rng.random() < 0.4)}
+
+
+def gen_gop(rng, polar):
+    u = rng.random()
+    if u < 0.35:
+        op, args = 'reverse', []
+    elif u < 0.55:
+        k = [2.0, 0.5, 4.0, 0.25, 1.5, 0.75][int(rng.integers(0, 6))]
+        if not polar and rng.random() < 0.5:
+            args = [k * [1, -1][int(rng.integers(0, 2))], [1.0, 2.0, 0.5, k][int(rng.integers(0, 4))] * [1, -1][int(rng.integers(0, 2))]]
+        else:
+            args = [k]
+        op = 'scale'
+    elif u < 0.8:
+        op, args = 'shift', [float(rng.integers(-16, 17)) / 16.0, float(rng.integers(-16, 17)) / 16.0]
+    else:
+        op, args = 'rotate', [int(v) for v in gen_angle(rng)]
+    return {'op': op, 'args': args, 'how': ['inplace', 'inplace', 'copy', 'new'][int(rng.integers(0, 4))]}
+
+
+def gen_ghist_case(rng):
+    g, D = gh_grid(rng)
+    steps = []
+    if rng.random() < 0.85:
+        steps.append({'eval': gen_eval(rng), 'on': 'cur'})
+    for _ in range(int(rng.integers(1, 5))):
+        o = gen_gop(rng, g['kind'].startswith('polar'))
+        steps.append(o)
+        if rng.random() < 0.9:
+            steps.append({'eval': gen_eval(rng), 'on': 'cur'})
+        if o['how'] != 'inplace' and rng.random() < 0.5:
+            steps.append({'eval': gen_eval(rng), 'on': 'old'})
+    if not any('eval' in s_ for s_ in steps[1:]):
+        steps.append({'eval': gen_eval(rng), 'on': 'cur'})
+    return {'what': 'ghist', 'grid': g, 'D': D, 'steps': steps}
+
+
+def _ghist_directed():
+    ev = lambda n, m, **kw: {'eval': dict({'e': 'zernike', 'n': n, 'm': m, 'cut': True, 'cache': False, 'gen': False}, **kw), 'on': 'cur'}
+    bas = {'eval': {'e': 'basis', 'num': 6, 'start': 1, 'ansi': False, 'cut': True, 'use_cache': True, 'gen': False}, 'on': 'cur'}
+    out = []
+    for grid in ({'kind': 'cart-regular', 'dims': [4, 3], 'delta': 0.25}, {'kind': 'cart-points', 'x': [0.0, 0.375, -0.3125, 0.5], 'y': [0.0, 0.5, 0.75, -0.125]},
+                 {'kind': 'cart-separated', 'xs': [-0.5, 0.0, 0.25], 'ys': [-0.25, 0.5]}, {'kind': 'polar-points', 'r': [0.0, 0.5, 0.25, 0.75], 'ang': [[1, 0, 1], [3, 4, 5], [0, 1, 1], [-4, 3, 5]]},
+                 {'kind': 'polar-separated', 'R': [0.0, 0.25, 0.5], 'ang': [[1, 0, 1], [3, 4, 5]]}):
+        for op, args in (('reverse', []), ('scale', [2.0]), ('shift', [0.25, -0.125]), ('rotate', [3, 4, 5])):
+            for how in ('inplace', 'copy', 'new'):
+                out.append({'what': 'ghist', 'grid': grid, 'D': 1.5,
+                            'steps': [ev(3, 1), {'op': op, 'args': args, 'how': how}, ev(3, 1), bas, ev(4, -2, gen=True, cut=False), dict(ev(3, -1), on='old')]})
+    return out
+
+
+def current_points(g):
+    """the points the grid object reports now, read from its coordinates (never through as_())"""
+    if g.is_('polar'):
+        return ('polarf', [float(v) for v in np.array(g.r)], [float(v) for v in np.array(g.theta)])
+    return ('cart', [float(v) for v in np.array(g.x)], [float(v) for v in np.array(g.y)])
+
+
+def track_start(spec):
+    k = spec['kind']
+    if k in ('cart-regular', 'cart-points', 'cart-separated'):
+        _, pts = build(dict(spec, D=1.0))
+        return {'t': 'cart', 'x': [Fraction(v) for v in pts[1]], 'y': [Fraction(v) for v in pts[2]]}
+    if k == 'polar-points':
+        return {'t': 'polar', 'r': [Fraction(v) for v in spec['r']], 'dirs': [tuple(a) for a in spec['ang']]}
+    return {'t': 'sep', 'R': [Fraction(v) for v in spec['R']], 'dirs': [tuple(a) for a in spec['ang']]}
+
+
+def track_from_floats(A):
+    return {'t': 'cart', 'x': [Fraction(v) for v in A[1]], 'y': [Fraction(v) for v in A[2]]} if A[0] == 'cart' else None
+
+
+def track_op(T, op, args):
+    """the operation on exact points (independent of the grid object); None where a polar grid has no exact answer"""
+    if T is None:
+        return None
+    t = T['t']
+    if op == 'reverse':
+        if t == 'cart':
+            return {'t': t, 'x': T['x'][::-1], 'y': T['y'][::-1]}
+        if t == 'polar':
+            return {'t': t, 'r': T['r'][::-1], 'dirs': T['dirs'][::-1]}
+        return {'t': t, 'R': T['R'][::-1], 'dirs': T['dirs'][::-1]}
+    if op == 'scale':
+        kx = Fraction(args[0]); ky = Fraction(args[-1])
+        if t == 'cart':
+            return {'t': t, 'x': [kx * v for v in T['x']], 'y': [ky * v for v in T['y']]}
+        if kx != ky:
+            return None
+        if t == 'polar':
+            return {'t': t, 'r': [kx * v for v in T['r']], 'dirs': T['dirs']}
+        return {'t': t, 'R': [kx * v for v in T['R']], 'dirs': T['dirs']}
+    if op == 'shift':
+        if t != 'cart':
+            return None
+        return {'t': t, 'x': [v + Fraction(args[0]) for v in T['x']], 'y': [v + Fraction(args[1]) for v in T['y']]}
+    c, s_, d = args
+    if t == 'cart':
+        c, s_ = Fraction(c, d), Fraction(s_, d)
+        return {'t': t, 'x': [c * x - s_ * y for x, y in zip(T['x'], T['y'])], 'y': [s_ * x + c * y for x, y in zip(T['x'], T['y'])]}
+
+    def comp(a):
+        c0, s0, d0 = a
+        cc, ss, dd = c0 * c - s0 * s_, s0 * c + c0 * s_, d0 * d
+        g_ = math.gcd(math.gcd(abs(cc), abs(ss)), dd)
+        return (cc // g_, ss // g_, dd // g_)
+    return dict(T, dirs=[comp(a) for a in T['dirs']])
+
+
+def track_pts(T):
+    """tracked points in the layout of the grid"""
+    if T['t'] == 'cart':
+        return ('cart', T['x'], T['y'])
+    if T['t'] == 'polar':
+        return ('polar', T['r'], T['dirs'])
+    return ('polar', [v for _ in T['dirs'] for v in T['R']], [a for a in T['dirs'] for _ in T['R']])
+
+
+def track_line(T):
+    dirs = T.get('dirs', [])
+    cs = rat_list([Fraction(c, d) for c, s_, d in dirs]); ss = rat_list([Fraction(s_, d) for c, s_, d in dirs])
+    if T['t'] == 'cart':
+        return 'C13 pts cart %s %s' % (rat_list(T['x']), rat_list(T['y']))
+    if T['t'] == 'polar':
+        return 'C13 pts polar %s %s %s' % (rat_list(T['r']), cs, ss)
+    return 'C13 pts sep %s %s %s' % (rat_list(T['R']), cs, ss)
+
+
+def track_matches(T, A):
+    """do the tracked exact points equal the points the object reports?  'exact' | 'approx' | 'no'"""
+    P = track_pts(T)
+    if len(P[1]) != len(A[1]):
+        return 'no'
+    if P[0] == 'cart':
+        if A[0] != 'cart':
+            return 'no'
+        if all(Fraction(a) == p for a, p in zip(A[1], P[1])) and all(Fraction(a) == p for a, p in zip(A[2], P[2])):
+            return 'exact'
+        sc = max([1e-300] + [abs(float(v)) for v in P[1] + P[2]])
+        return 'approx' if all(abs(a - float(p)) <= 1e-12 * sc for a, p in zip(A[1] + A[2], P[1] + P[2])) else 'no'
+    if A[0] != 'polarf' or not all(Fraction(a) == p for a, p in zip(A[1], P[1])):
+        return 'no'
+    ok = all(abs(math.cos(th) - c / d) + abs(math.sin(th) - s_ / d) < 1e-13 for th, (c, s_, d) in zip(A[2], P[2]))
+    return 'exact' if ok else 'no'
+
+
+def representable(T):
+    return all(Fraction(float(v)) == v for key in ('x', 'y', 'r', 'R') for v in T.get(key, []))
+
+
+def apply_gop(g, o):
+    op, args, how = o['op'], o['args'], o['how']
+    if op == 'reverse':
+        a = ()
+    elif op == 'scale':
+        a = (args[0],) if len(args) == 1 else (np.array(args, dtype=float),)
+    elif op == 'shift':
+        a = (np.array(args, dtype=float),)
+    else:
+        a = (math.atan2(args[1], args[0]),)
+    with warnings.catch_warnings():
+        warnings.simplefilter('ignore')
+        if how == 'new':
+            return getattr(g, {'reverse': 'reversed', 'scale': 'scaled', 'shift': 'shifted', 'rotate': 'rotated'}[op])(*a)
+        tgt = g.copy() if how == 'copy' else g
+        getattr(tgt, op)(*a)
+        return tgt
+
+
+def eval_modes(ev, nmax=NMAX):
+    """the (n, m) the evaluation must return, by the documented orderings"""
+    en, em = expected_noll(max(nmax, NMAX)); an, am = expected_ansi(max(nmax, NMAX))
+    if ev['e'] == 'zernike':
+        return [(ev['n'], ev['m'])]
+    if ev['e'] == 'noll':
+        return [(int(en[ev['i'] - 1]), int(em[ev['i'] - 1]))]
+    if ev['e'] == 'ansi':
+        return [(int(an[ev['i']]), int(am[ev['i']]))]
+    idx = range(ev['start'], ev['start'] + ev['num'])
+    return [(int(an[i]), int(am[i])) if ev['ansi'] else (int(en[i - 1]), int(em[i - 1])) for i in idx]
+
+
+def run_eval(hz, ev, g, D, gens, npts):
+    """[(label, n, m, cut, observed vector or 'raises-…')] of one evaluation step on the grid object g; `gens`: Field generators made earlier
+    in the same history (created on first use, re-used on the object in its later states)"""
+    modes = eval_modes(ev)
+    cut = ev['cut']
+    out = []
+    with warnings.catch_warnings():
+        warnings.simplefilter('ignore')
+        try:
+            e = ev['e']
+            if e == 'basis':
+                key = ('basis', ev['num'], ev['start'], ev['ansi'], cut, ev['use_cache'])
+                label = 'make_zernike_basis(%d,D,%s,%d,ansi=%s,cutoff=%s,use_cache=%s)' % (ev['num'], 'None' if ev['gen'] else 'grid', ev['start'], ev['ansi'], cut, ev['use_cache'])
+                if ev['gen']:
+                    if key not in gens:
+                        gens[key] = hz.make_zernike_basis(ev['num'], D, None, ev['start'], ev['ansi'], cut, ev['use_cache'])
+                    cols = [np.array(f(g), dtype=float).copy() for f in gens[key]]
+                else:
+                    M = np.array(hz.make_zernike_basis(ev['num'], D, g, ev['start'], ev['ansi'], cut, ev['use_cache']).transformation_matrix, dtype=float)
+                    if M.shape != (npts, ev['num']):
+                        return [(label + ': matrix shape %r' % (M.shape,), modes[0][0], modes[0][1], cut, 'raises-WrongShape')]
+                    cols = [M[:, j].copy() for j in range(ev['num'])]
+                if len(cols) != len(modes):
+                    return [(label + ': %d modes' % len(cols), modes[0][0], modes[0][1], cut, 'raises-WrongCount')]
+                return [('%s mode %d' % (label, j), n, m, cut, z) for j, ((n, m), z) in enumerate(zip(modes, cols))]
+            n, m = modes[0]
+            if e == 'zernike':
+                f, lead, label = hz.zernike, (n, m), 'zernike(%d,%d' % (n, m)
+                cache = {} if ev.get('cache') else None
+            else:
+                f, lead, label = (hz.zernike_noll if e == 'noll' else hz.zernike_ansi), (ev['i'],), 'zernike_%s(%d' % (e, ev['i'])
+                cache = None
+            if ev['gen']:
+                key = (e,) + lead + (cut,)
+                if key not in gens:
+                    gens[key] = f(*lead, D, None, cut)
+                z = gens[key](g); label += ',D,None,%s)(grid)' % cut
+            else:
+                z = f(*lead, D, g, cut, cache); label += ',D,grid,%s,cache=%s)' % (cut, 'None' if cache is None else '{}')
+            out.append((label, n, m, cut, np.array(z, dtype=float).copy()))
+        except Exception as ex:      # noqa
+            out.append((ev['e'], modes[0][0], modes[0][1], cut, 'raises-' + type(ex).__name__))
+    return out
+
+
+def run_ghist(hz, case):
+    """Returns (bad, script, stats): bad = [(key, what, step index)]; script = [(model line, expectation)] for the correspondence"""
+    spec, D = case['grid'], case['D']
+    g, _ = build(dict(spec, D=D))
+    T = track_start(spec)
+    old = None          # (object, tracked points) the current object was copied from
+    gens = {}
+    bad, script, stats = [], [], []
+    script.append((track_line(T), None))
+    kind = spec['kind']
+    for si, st in enumerate(case['steps']):
+        if 'op' in st:
+            prev = (g, T)
+            try:
+                g2 = apply_gop(g, st)
+            except Exception as ex:      # noqa
+                # not a clause of C13 (the property starts from a grid that exists): the history cannot be observed -> broken correspondence
+                script.append((None, ('note', '%s(%r) [%s] on a %s grid raises %s' % (st['op'], st['args'], st['how'], kind, type(ex).__name__)))); break
+            if st['how'] != 'inplace':
+                old = prev
+            g = g2
+            A = current_points(g)
+            T2 = track_op(T, st['op'], st['args'])
+            stats.append('ghist-op:%s:%s' % (st['op'], st['how']))
+            if T2 is not None and T is not None:
+                if st['op'] == 'rotate':
+                    oa = [Fraction(st['args'][0], st['args'][2]), Fraction(st['args'][1], st['args'][2])]
+                elif st['op'] == 'scale':
+                    oa = [Fraction(st['args'][0]), Fraction(st['args'][-1])]
+                else:
+                    oa = [Fraction(a) for a in st['args']]
+                script.append((' '.join(['C13 gop', st['op']] + [rat(a) for a in oa]), ('ok',)))
+                script.append(('C13 getpts', ('pts', T2)))
+                exact_kind = st['op'] != 'rotate' and representable(T2)
+                mt = track_matches(T2, A)
+                if T2['t'] != 'cart':
+                    if mt != 'exact':
+                        script.append((None, ('note', 'grid op %s%r on a %s grid: the points of the object are not the tracked ones' % (st['op'], st['args'], kind))))
+                        T2 = None
+                elif exact_kind and mt == 'exact':
+                    stats.append('ghist-points:exact')
+                elif mt in ('approx', 'exact') and not exact_kind:
+                    T2 = track_from_floats(A); script.append((track_line(T2), None)); stats.append('ghist-points:resync')
+                else:
+                    script.append((None, ('note', 'grid op %s%r on a %s grid: the points of the object are not the tracked ones' % (st['op'], st['args'], kind))))
+                    T2 = track_from_floats(A); script.append((track_line(T2), None))
+            else:
+                T2 = track_from_floats(A)          # a polar grid shifted: Cartesian if out of place, float polar otherwise
+                if T2 is not None:
+                    script.append((track_line(T2), None))
+                stats.append('ghist-points:float')
+            T = T2
+            continue
+        ev = st['eval']
+        if st['on'] == 'old' and old is None:
+            continue
+        obj, To = (g, T) if st['on'] == 'cur' else old
+        A = current_points(obj)
+        npts = len(A[1])
+        before = [np.asarray(c).tobytes() for c in obj.coords]
+        outs = run_eval(hz, ev, obj, D, gens, npts)
+        if [np.asarray(c).tobytes() for c in obj.coords] != before:
+            bad.append(('grid-history input-mutated', '%s changed the coordinates of the grid it was evaluated on' % ev['e'], si))
+        pts = A
+        if To is not None and To['t'] != 'cart' and track_matches(To, A) == 'exact':
+            pts = track_pts(To); pts = ('polar', [float(v) for v in pts[1]], pts[2])
+        outside, amb = cut_info(pts, D)
+        if st['on'] == 'old' and To is not None:
+            script.append((track_line(To), None))
+        for label, n, m, cut, z in outs:
+            ref, mag = reference(n, m, D, cut, pts, outside)
+            r = compare_vec(z, ref, mag, amb, cut, npts)
+            stats.append('ghist-eval:%s:%s:%s' % (ev['e'], 'generator' if ev.get('gen') else 'direct', st['on']))
+            if r:
+                hist = ' -> '.join(('%s%r[%s]' % (s_['op'], s_['args'], s_['how'])) if 'op' in s_ else 'eval' for s_ in case['steps'][:si])
+                bad.append(('grid-history %s %s' % (ev['e'], r[0]), '%s on a %s grid object after the history [%s] (%s object): %s — expected the mode n=%d, m=%d at the CURRENT points of the grid'
+                            % (label, kind, hist, 'current' if st['on'] == 'cur' else 'copied-from', r[1], n, m), si))
+            if To is not None:
+                script.append(('C13 mode %d %d %s %d' % (n, m, rat(D), 1 if cut else 0), ('mode', label, n, m, cut, z, amb, mag)))
+        if st['on'] == 'old' and T is not None:
+            script.append((track_line(T), None))
+    return bad, script, stats
+
+
+def shrink_ghist(hz, case, key):
+    """shortest prefix / sub-history that still fails the same clause"""
+    steps = case['steps']
+    for k in range(1, len(steps) + 1):
+        for sub in ([s_ for s_ in steps[:k] if 'op' in s_ or s_ is steps[k - 1] or s_ is steps[0]], steps[:k]):
+            c = dict(case, steps=sub)
+            if any(b[0] == key for b in run_ghist(hz, c)[0]):
+                return c
+    return case
+
+
+def play_all(ctx, jobs, player):
+    """one batch for all scripts (every script starts by storing its own points)"""
+    lines = [ln for _, script in jobs for ln, _ in script if ln is not None]
+    out = ctx.model(lines)
+    pos = 0
+    for case, script in jobs:
+        k = sum(1 for ln, _ in script if ln is not None)
+        player(ctx, case, script, out[pos:pos + k]); pos += k
+
+
+def play_script(ctx, case, script, answers, stream='C13 grid-history'):
+    out = iter(answers)
+    for ln, exp in script:
+        if ln is None:
+            ctx.disagree(stream, {'case': case, 'detail': exp[1]}); continue
+        ans = next(out)
+        if exp is None or exp[0] == 'ok':
+            if ans != 'ok':
+                ctx.disagree(stream, {'case': case, 'line': ln[:120], 'model': ans[:120]})
+            continue
+        ctx.traces_validated += 1
+        if exp[0] == 'pts':
+            T = exp[1]
+            want = track_line(T)[len('C13 pts '):]
+            if ans != 'ok ' + want:
+                ctx.disagree(stream, {'case': case, 'detail': 'points after the operation', 'model': ans[:200], 'tracked': want[:200]})
+        elif exp[0] == 'same':
+            if ans != exp[1]():
+                ctx.disagree(stream, {'case': case, 'detail': 'the model is not scale invariant', 'line': ln[:160]})
+        else:
+            _, label, n, m, cut, z, amb, mag = exp[:8]
+            tol = exp[8] if len(exp) > 8 else TOL
+            if not ans.startswith('ok '):
+                raise MachineryError('model answered %r to %r' % (ans[:60], ln[:80]))
+            q = parse_rat_list(ans[3:])
+            nf = norm_factor(n, m) if (n, m) in NORMSQ else np.sqrt(LD((n + 1) * (1 if m == 0 else 2)))
+            mv = np.array([float(nf * (LD(v.numerator) / LD(v.denominator))) for v in q])
+            r = compare_vec(z, mv, mag * tol / TOL, amb, cut, len(mv)) if tol != TOL else compare_vec(z, mv, mag, amb, cut, len(mv))
+            if r:
+                ctx.disagree(stream, {'label': label, 'case': case, 'n': n, 'm': m, 'detail': r[1]})
+
+
+def check_grid_history(ctx, hz):
+    cases = _ghist_directed() + [gen_ghist_case(ctx.rng) for _ in range(ctx.scale(160, 2000))]
+    jobs = []
+    for case in cases:
+        bad, script, stats = run_ghist(hz, case)
+        seen = set()
+        for key, what, si in bad:
+            if key not in seen:
+                seen.add(key)
+                ctx.violation(key, what, shrink_ghist(hz, case, key) if not any(v['key'] == key for v in ctx.violations) else case)
+        for s_ in stats:
+            ctx.count(s_)
+        ctx.count('ghist-grid:' + case['grid']['kind'])
+        ops = tuple((s_['op'], s_['how']) for s_ in case['steps'] if 'op' in s_)
+        ctx.count('ghist-length:%d' % len(ops))
+        ctx.case(None, ('ghist', case['grid']['kind'], ops, tuple(s_['eval']['e'] for s_ in case['steps'] if 'eval' in s_)))
+        jobs.append((case, script))
+    play_all(ctx, jobs, play_script)
+
+
+# ---------------------------------------------------------------------------------------------
+# Part J: extreme units
+
+def gen_scale_case(rng):
+    g, D = gh_grid(rng)
+    f32 = g['kind'] in ('cart-points', 'polar-points') and rng.random() < 0.5
+    lim = 100 if f32 else 520
+    u = rng.random()
+    if u < 0.6:
+        k = int(rng.integers(lim * 3 // 5, lim + 1)) * [1, -1][int(rng.integers(0, 2))]      # beyond the squares' range: x*x under/overflows
+    elif u < 0.8:
+        k = int(rng.integers(lim // 4, lim * 3 // 5)) * [1, -1][int(rng.integers(0, 2))]
+    else:
+        k = int(rng.integers(-20, 21))
+    nmax = 8 if f32 else NMAX
+    return {'what': 'scale', 'grid': g, 'D': D, 'k': k, 'f32': bool(f32), 'evals': [gen_eval(rng, nmax) for _ in range(int(rng.integers(2, 5)))]}
+
+
+def _scale_directed():
+    out = []
+    evs = [{'e': 'zernike', 'n': 1, 'm': 1, 'cut': True, 'cache': False, 'gen': False}, {'e': 'zernike', 'n': 0, 'm': 0, 'cut': True, 'cache': True, 'gen': True},
+           {'e': 'noll', 'i': 11, 'cut': False, 'gen': False}, {'e': 'ansi', 'i': 8, 'cut': True, 'gen': True},
+           {'e': 'basis', 'num': 6, 'start': 1, 'ansi': False, 'cut': True, 'use_cache': True, 'gen': False},
+           {'e': 'basis', 'num': 4, 'start': 3, 'ansi': True, 'cut': False, 'use_cache': False, 'gen': True}]
+    for grid in ({'kind': 'cart-regular', 'dims': [5, 4], 'delta': 0.25}, {'kind': 'cart-points', 'x': [0.0, 0.375, -0.3125, 0.5], 'y': [0.0, 0.5, 0.75, -0.125]},
+                 {'kind': 'cart-separated', 'xs': [-0.5, 0.0, 0.25], 'ys': [-0.25, 0.5]}, {'kind': 'polar-points', 'r': [0.0, 0.5, 0.25, 0.75], 'ang': [[1, 0, 1], [3, 4, 5], [0, 1, 1], [-4, 3, 5]]},
+                 {'kind': 'polar-separated', 'R': [0.0, 0.25, 0.5], 'ang': [[1, 0, 1], [3, 4, 5]]}):
+        for k in (-520, -512, 511, 520):
+            out.append({'what': 'scale', 'grid': grid, 'D': 1.25, 'k': k, 'f32': False, 'evals': evs})
+        if grid['kind'] in ('cart-points', 'polar-points'):
+            for k in (-100, -64, 63, 100):
+                out.append({'what': 'scale', 'grid': grid, 'D': 1.25, 'k': k, 'f32': True, 'evals': evs})
+    return out
+
+
+def build_scaled(case):
+    """the grid of the case with every length multiplied by 2^k (exact), built directly from scaled coordinates"""
+    import hcipy
+    spec, k = case['grid'], case['k']
+    s_ = 2.0 ** k
+    dt = np.float32 if case['f32'] else float
+    g0, pts = build(dict(spec, D=case['D']))
+    kind = spec['kind']
+    if kind == 'cart-regular':
+        c = g0.coords
+        g = hcipy.CartesianGrid(hcipy.RegularCoords(np.array(c.delta) * s_, c.dims, np.array(c.zero) * s_))
+    elif kind == 'cart-points':
+        g = hcipy.CartesianGrid(hcipy.UnstructuredCoords([(np.array(spec['x']) * s_).astype(dt), (np.array(spec['y']) * s_).astype(dt)]))
+    elif kind == 'cart-separated':
+        g = hcipy.CartesianGrid(hcipy.SeparatedCoords((np.array(spec['xs']) * s_, np.array(spec['ys']) * s_)))
+    elif kind == 'polar-points':
+        th = np.array([math.atan2(s2, c2) for c2, s2, d in spec['ang']])
+        g = hcipy.PolarGrid(hcipy.UnstructuredCoords([(np.array(spec['r']) * s_).astype(dt), th.astype(dt)]))
+    else:
+        th = np.array([math.atan2(s2, c2) for c2, s2, d in spec['ang']])
+        g = hcipy.PolarGrid(hcipy.SeparatedCoords((np.array(spec['R']) * s_, th)))
+    return g, pts, s_
+
+
+def run_scale(hz, case):
+    g, pts, s_ = build_scaled(case)
+    D0 = case['D']; D = D0 * s_
+    npts = len(pts[1])
+    tol = F32_TOL if case['f32'] else TOL
+    bad, script, stats = [], [], []
+    # the scaled grid must hold exactly the scaled points (powers of two: no rounding) — otherwise the case is not the one intended
+    A = current_points(g)
+    P = pts[1] if pts[0] == 'polar' else pts[1] + pts[2]
+    Q = A[1] if pts[0] == 'polar' else A[1] + A[2]
+    if len(P) != len(Q) or any(Fraction(a) != Fraction(p) * Fraction(2) ** case['k'] for a, p in zip(Q, P)):
+        raise MachineryError('scaled grid of %r does not hold the exactly scaled points' % (case['grid'],))
+    outside, amb = cut_info(pts, D0)
+    T0 = track_start(case['grid'])
+    Ts = track_op(T0, 'scale', [Fraction(2) ** case['k']])
+    gens = {}
+    recs = []
+    for ei, ev in enumerate(case['evals']):
+        outs = run_eval(hz, ev, g, D, gens, npts)
+        for label, n, m, cut, z in outs:
+            ref, mag = reference(n, m, D0, cut, pts, outside)
+            r = compare_vec(z, ref, mag * tol / TOL, amb, cut, npts)
+            stats.append('scale-eval:%s:%s' % (ev['e'], 'generator' if ev.get('gen') else 'direct'))
+            if r:
+                bad.append(('scale %s %s' % (ev['e'], r[0]), '%s on a %s grid (%s coordinates) in units of 2^%d (coordinates and D = %r scaled together: Z depends on r/D only): %s'
+                            % (label, case['grid']['kind'], 'float32' if case['f32'] else 'float64', case['k'], D, r[1]), ei))
+            recs.append((label, n, m, cut, z, amb, mag, ev['e']))
+    # the entry points against each other: the same mode through two different entry points
+    bymode = {}
+    for label, n, m, cut, z, amb_, mag, e in recs:
+        if isinstance(z, str) or z.shape != (npts,):
+            continue
+        k0 = (n, m, cut)
+        if k0 in bymode and bymode[k0][1] != e:
+            z0 = bymode[k0][0]
+            skip = amb & bool(cut)
+            d = np.abs(z - z0); d[skip] = 0.0
+            stats.append('scale-entry-pairs')
+            if (np.isnan(z) != np.isnan(z0)).any() or np.nanmax(np.append(d, 0.0)) > tol * max(1.0, mag):
+                bad.append(('scale entry-points-disagree', '%s and %s give different values for the mode (%d,%d) on the same %s grid in units of 2^%d' % (bymode[k0][2], label, n, m, case['grid']['kind'], case['k']), 0))
+        else:
+            bymode[k0] = (z, e, label)
+    # model: the exactly scaled rational points and D·2^k; and the same request at the unscaled points must give the same answer
+    base = {}
+    script.append((track_line(T0), None))
+    seen = []
+    for label, n, m, cut, z, amb_, mag, e in recs:
+        if (n, m, cut) not in base:
+            ln = 'C13 mode %d %d %s %d' % (n, m, rat(D0), 1 if cut else 0)
+            base[(n, m, cut)] = len(seen); seen.append(None)
+            script.append((ln, ('same0', base[(n, m, cut)])))
+    script.append((track_line(Ts), None))
+    Ds = rat(Fraction(D0) * Fraction(2) ** case['k'])
+    done = set()
+    for label, n, m, cut, z, amb_, mag, e in recs:
+        ln = 'C13 mode %d %d %s %d' % (n, m, Ds, 1 if cut else 0)
+        if (n, m, cut) not in done:
+            done.add((n, m, cut))
+            script.append((ln, ('same1', base[(n, m, cut)])))
+        script.append((ln, ('mode', label, n, m, cut, z, amb, mag, tol)))
+    return bad, script, stats
+
+
+def play_scale_script(ctx, case, script, out):
+    """as play_script, with the scale-invariance check of the model itself (same0 / same1 slots)"""
+    store = {}
+    rest = []
+    for (ln, exp), ans in zip(script, out):
+        if exp is not None and exp[0] == 'same0':
+            store[exp[1]] = ans
+        elif exp is not None and exp[0] == 'same1':
+            ctx.traces_validated += 1
+            if store.get(exp[1]) != ans or not ans.startswith('ok '):
+                ctx.disagree('C13 scale', {'case': case, 'detail': 'the model is not scale invariant (theorem mode_cartesian_scale_invariant / mode_cut_scale_invariant)', 'line': ln[:160]})
+        else:
+            rest.append(((ln, exp), ans))
+    for (ln, exp), ans in rest:
+        if exp is None:
+            if ans != 'ok':
+                ctx.disagree('C13 scale', {'case': case, 'line': ln[:120], 'model': ans[:120]})
+            continue
+        _, label, n, m, cut, z, amb, mag, tol = exp
+        if not ans.startswith('ok '):
+            raise MachineryError('model answered %r to %r' % (ans[:60], ln[:80]))
+        q = parse_rat_list(ans[3:])
+        nf = norm_factor(n, m)
+        mv = np.array([float(nf * (LD(v.numerator) / LD(v.denominator))) for v in q])
+        ctx.traces_validated += 1
+        r = compare_vec(z, mv, mag * tol / TOL, amb, cut, len(mv))
+        if r:
+            ctx.disagree('C13 scale', {'label': label, 'case': case, 'n': n, 'm': m, 'detail': r[1]})
+
+
+def radial_extreme(ctx, hz):
+    """zernike_radial called directly at extreme arguments: rho = j·2^-k down to 2^-520 (the powers underflow gracefully: no NaN, no
+    spurious value) and up to 4, against the factorial definition in exact integers"""
+    rng = ctx.rng
+    for _ in range(ctx.scale(40, 400)):
+        n = int(rng.integers(0, NMAX + 1)); m = n % 2 + 2 * int(rng.integers(0, n // 2 + 1))
+        sgn = [1, -1][int(rng.integers(0, 2))]
+        ks = [int(rng.integers(30, 521)) for _ in range(4)]
+        rho = [0.0, 1.0] + [float(rng.integers(1, 8)) * 2.0 ** -k for k in ks] + [float(rng.integers(0, 1025)) / 256.0]
+        use_cache = bool(rng.random() < 0.5)
+        case = {'what': 'radial-extreme', 'n': n, 'm': sgn * m, 'rho': rho, 'cache': use_cache}
+        bad = run_radial_extreme(hz, case)
+        ctx.case(None, ('radial-extreme', n, m))
+        ctx.count('radial-extreme-requests')
+        for key, what in bad[:1]:
+            ctx.violation(key, what, case)
+
+
+def run_radial_extreme(hz, case):
+    n, m, rho = case['n'], case['m'], case['rho']
+    arr = np.array(rho, dtype=float)
+    with warnings.catch_warnings():
+        warnings.simplefilter('ignore')
+        try:
+            z = np.array(hz.zernike_radial(n, m, arr, {} if case['cache'] else None), dtype=float)
+        except Exception as ex:      # noqa
+            return [('scale zernike_radial raises', 'zernike_radial(%d,%d,%r) raises %s' % (n, m, rho, type(ex).__name__))]
+    if z.shape != arr.shape:
+        z = np.broadcast_to(z, arr.shape)
+    bad = []
+    for j, r in enumerate(rho):
+        q = exact_radial(n, abs(m), r)
+        ref = float(q)
+        if np.isnan(z[j]) or abs(z[j] - ref) > TOL * max(1.0, abs(ref)):
+            bad.append(('scale zernike_radial value', 'zernike_radial(%d,%d) at rho = %r gives %r, the definition %r' % (n, m, r, float(z[j]), ref)))
+    return bad
+
+
+def check_scales(ctx, hz):
+    cases = _scale_directed() + [gen_scale_case(ctx.rng) for _ in range(ctx.scale(90, 1000))]
+    jobs = []
+    for case in cases:
+        bad, script, stats = run_scale(hz, case)
+        seen = set()
+        for key, what, ei in bad:
+            if key not in seen:
+                seen.add(key)
+                small = dict(case, evals=[case['evals'][ei]]) if not key.endswith('disagree') else case
+                if small is not case and not any(b[0] == key for b in run_scale(hz, small)[0]):
+                    small = case
+                ctx.violation(key, what, small)
+        for s_ in stats:
+            ctx.count(s_)
+        ak = abs(case['k'])
+        lim = 100 if case['f32'] else 520
+        ctx.count('scale-grid:%s:%s' % (case['grid']['kind'], 'float32' if case['f32'] else 'float64'))
+        ctx.count('scale-exponent:%s:%s' % ('float32' if case['f32'] else 'float64', 'squares-out-of-range' if ak >= lim * 3 // 5 else ('large' if ak >= lim // 4 else 'ordinary')))
+        ctx.case(None, ('scale', case['grid']['kind'], case['f32'], case['k'], tuple(e['e'] for e in case['evals'])))
+        jobs.append((case, script))
+    play_all(ctx, jobs, play_scale_script)
+    radial_extreme(ctx, hz)
+
+
 def run(ctx):
     import hcipy, sys
     hz = sys.modules['hcipy.mode_basis.zernike']
@@ -2061,7 +2712,11 @@ def run(ctx):
     ctx.extra['time_gens_s'] = round(time.time() - t, 1); t = time.time()
     check_high_orders(ctx, hz)
     check_high_modes(ctx, hz)
-    ctx.extra['time_high_orders_s'] = round(time.time() - t, 1)
+    ctx.extra['time_high_orders_s'] = round(time.time() - t, 1); t = time.time()
+    check_grid_history(ctx, hz)
+    ctx.extra['time_grid_history_s'] = round(time.time() - t, 1); t = time.time()
+    check_scales(ctx, hz)
+    ctx.extra['time_scales_s'] = round(time.time() - t, 1)
     by = {}
     for d in ctx.disagreements:
         by[d['stream']] = by.get(d['stream'], 0) + 1
@@ -2111,6 +2766,16 @@ def replay(ctx, case):
     elif what == 'noll-injective':
         seen = set(hz.noll_to_zernike(i) for i in range(1, case['N'] + 1))
         ok = len(seen) == case['N']
+    elif what in ('ghist', 'scale'):
+        bad = (run_ghist if what == 'ghist' else run_scale)(hz, case)[0]
+        for key, what_, _ in bad[:5]:
+            print('  fails:', key, '-', what_)
+        ok = not bad
+    elif what == 'radial-extreme':
+        bad = run_radial_extreme(hz, case)
+        for key, what_ in bad[:5]:
+            print('  fails:', key, '-', what_)
+        ok = not bad
     elif what == 'highmode':
         bad = run_highmode(hz, case)[0]
         for key, what_, _ in bad[:5]:
